@@ -1,9 +1,245 @@
-import CalicoVerif.Model.C33
+import CalicoVerif.Proofs.C33Table
 import CalicoVerif.Gen.C33
-/-! C33 — placeholder while the correspondence is brought up (theorems follow). -/
+/-!
+C33 — Maglev lookup tables are complete, balanced and node-independent.
+
+Property theorems over the model `CalicoVerif/Model/C33.lean` of
+felix/bpf/consistenthash (hash functions are PARAMETERS: every theorem holds for
+all hash functions) and the prime table / constants regenerated from the source
+into `CalicoVerif/Gen/C33.lean` on every run.  Helper lemmas: `Proofs/C33*.lean`.
+-/
 namespace CalicoVerif.C33
 
-theorem permOf_length (m o s : Nat) : (permOf m o s).length = m := by
-  simp [permOf]
+/-! ## 1. permutation -/
+
+/-- `permutation` (m prime): never panics, and the preference list it returns
+visits every slot of `[0,m)` exactly once (Euclid's lemma: `1 ≤ skip < m`, `m` prime). -/
+theorem perm_bijective {m : Nat} (hm : IsPrime m) (e : Endian) (hs : Hashes) (s : List Nat) :
+    permutation e hs m s ≠ .panic ∧
+    ∀ p, permutation e hs m s = .ok p →
+      p.length = m ∧ p.Nodup ∧ (∀ x ∈ p, x < m) ∧ (∀ x, x < m → x ∈ p) := by
+  obtain ⟨h1, h2⟩ := permutation_ok_valid hm e hs s
+  refine ⟨h1, ?_⟩
+  intro p hp
+  have hv := h2 p hp
+  exact ⟨hv.1, hv.2.1, hv.2.2, fun x hx => hv.mem hx⟩
+
+example : permutation .little fnvHashes 7 [97] = .ok [4, 3, 2, 1, 0, 6, 5] := by decide
+
+/-! ## 2. Generate: in bounds, full, balanced -/
+
+/-- `Generate` on any list of `N ≥ 1` preference lists that are permutations of
+`[0,m)`, `m ≥ 1`: the inner `for lut[choice] != nil` loop never indexes past the
+end of a preference list (the model returns `some`, i.e. no Go panic), every
+slot is filled with a backend index `< N`, and backend `i` owns exactly
+`m / N + (1 if i < m % N)` slots. -/
+theorem generate_terminates_in_bounds_full_balanced {perms : List (List Nat)} {m : Nat}
+    (hvalid : ∀ p ∈ perms, p.length = m ∧ p.Nodup ∧ ∀ x ∈ p, x < m)
+    (hN : 0 < perms.length) (hm : 0 < m) :
+    ∃ lut, generate perms m = some lut ∧ lut.length = m ∧
+      (∀ s, s < m → ∃ b, b < perms.length ∧ lut[s]? = some (some b)) ∧
+      (∀ i, i < perms.length →
+        lut.count (some i) = m / perms.length + (if i < m % perms.length then 1 else 0)) :=
+  generate_spec hvalid hN hm
+
+example : generate [[0, 1, 2], [1, 0, 2]] 3 = some [some 0, some 1, some 0] := by decide
+/-- Not vacuous the other way either: on a NON-bijective preference list the loop does run off the end. -/
+example : generate [[0, 0, 0], [0, 0, 0]] 3 = none := by decide
+
+/-- The backends `AddBackend` has stored after the arrivals (`none` = a panic). -/
+def backends (e : Endian) (hs : Hashes) (m : Nat) (arrivals : List (List Nat)) : Option (List (List Nat)) :=
+  addBackends (permutation e hs m) [] arrivals
+
+/-- Complete and balanced, end to end (`New`; `AddBackend`*; `Generate`), for every
+prime table size, all hash functions, every arrival sequence (duplicates allowed):
+no panic; the stored backends are exactly the distinct arriving names whose hashing
+succeeded; with no backend the result is `nil`; otherwise the table has `m` slots,
+every slot holds a stored backend, and the shares of any two stored backends differ
+by at most one slot and lie in `[⌊m/N⌋, ⌊m/N⌋+1]`. -/
+theorem table_full_balanced {m : Nat} (hm : IsPrime m) (e : Endian) (hs : Hashes)
+    (arrivals : List (List Nat)) :
+    ∃ names t, backends e hs m arrivals = some names ∧ table e hs m arrivals = some t ∧
+      names.Nodup ∧
+      (∀ x, x ∈ names ↔ (x ∈ arrivals ∧ ∃ p, permutation e hs m x = .ok p)) ∧
+      (names = [] → t = []) ∧
+      (names ≠ [] →
+        t.length = m ∧ (∀ x ∈ t, x ∈ names) ∧
+        (∀ a ∈ names, m / names.length ≤ t.count a ∧ t.count a ≤ m / names.length + 1) ∧
+        (∀ a ∈ names, ∀ b ∈ names, t.count a ≤ t.count b + 1)) := by
+  have hm2 := hm.1
+  obtain ⟨s1, s2⟩ := addBackends_spec (permutation e hs m) arrivals [] List.nodup_nil (by simp)
+  cases hab : addBackends (permutation e hs m) [] arrivals with
+  | none =>
+    obtain ⟨n, _, hp⟩ := s1.1 hab
+    exact absurd hp (permutation_ok_valid hm e hs n).1
+  | some names =>
+    obtain ⟨hnd, hmem⟩ := s2 names hab
+    have hmem' : ∀ x, x ∈ names ↔ (x ∈ arrivals ∧ ∃ p, permutation e hs m x = .ok p) := by
+      intro x; rw [hmem x]; simp
+    have hsp : (sortNames names).Perm names := List.mergeSort_perm names _
+    have hsnd : (sortNames names).Nodup := hsp.symm.nodup hnd
+    have hslen : (sortNames names).length = names.length := hsp.length_eq
+    -- permutations of the sorted backends are valid
+    have hvalid : ∀ p ∈ permsOf (permutation e hs m) (sortNames names), ValidPerm m p := by
+      intro p hp
+      simp only [permsOf, List.mem_map] at hp
+      obtain ⟨s, hs', rfl⟩ := hp
+      obtain ⟨q, hq⟩ := ((hmem' s).1 (hsp.mem_iff.1 hs')).2
+      rw [hq]
+      exact (permutation_ok_valid hm e hs s).2 q hq
+    have hplen : (permsOf (permutation e hs m) (sortNames names)).length = names.length := by
+      simp [permsOf, hslen]
+    by_cases hne : names = []
+    · subst hne
+      refine ⟨[], [], by unfold backends; exact hab, ?_, hnd, hmem', fun _ => rfl, fun h => absurd rfl h⟩
+      simp [table, tableWith, hab, sortNames, permsOf, generate, namesOfLut]
+    · have hNpos : 0 < names.length := List.length_pos_iff.2 hne
+      obtain ⟨lut, hgen, hlen, hfull, hown⟩ :=
+        generate_spec hvalid (by rw [hplen]; exact hNpos) (by omega)
+      rw [hplen] at hfull hown
+      refine ⟨names, namesOfLut (sortNames names) lut, by unfold backends; exact hab, ?_, hnd, hmem', fun h => absurd h hne, fun _ => ?_⟩
+      · simp [table, tableWith, hab, hgen]
+      · have hlutall : ∀ o ∈ lut, ∃ b, o = some b ∧ b < (sortNames names).length := by
+          intro o ho
+          obtain ⟨s, hs', rfl⟩ := List.getElem_of_mem ho
+          obtain ⟨b, hb, hget⟩ := hfull s (by omega)
+          rw [List.getElem?_eq_getElem hs'] at hget
+          exact ⟨b, Option.some.inj hget, by omega⟩
+        have hcount : ∀ a ∈ names, ∃ i, i < names.length ∧
+            (namesOfLut (sortNames names) lut).count a = cnt names.length m i := by
+          intro a ha
+          obtain ⟨i, hi, rfl⟩ := List.getElem_of_mem (hsp.mem_iff.2 ha)
+          refine ⟨i, by omega, ?_⟩
+          rw [count_namesOfLut hsnd hi lut hlutall]
+          exact hown i (by omega)
+        refine ⟨by simp [namesOfLut, hlen], ?_, ?_, ?_⟩
+        · intro x hx
+          simp only [namesOfLut, List.mem_map] at hx
+          obtain ⟨o, ho, rfl⟩ := hx
+          obtain ⟨b, rfl, hb⟩ := hlutall o ho
+          simp only [List.getD_eq_getElem?_getD, List.getElem?_eq_getElem hb, Option.getD_some]
+          exact hsp.mem_iff.1 (List.getElem_mem hb)
+        · intro a ha
+          obtain ⟨i, _, hc⟩ := hcount a ha
+          rw [hc]; unfold cnt; split <;> omega
+        · intro a ha b hb
+          obtain ⟨i, _, hca⟩ := hcount a ha
+          obtain ⟨j, _, hcb⟩ := hcount b hb
+          rw [hca, hcb]
+          exact cnt_balanced _ _ _ _
+
+/-- 7 slots, backends "a","b","c" with FNV-1: shares 2,2,3. -/
+example : table .little fnvHashes 7 [[98], [97], [99], [97]] =
+    some [[98], [99], [98], [97], [97], [97], [99]] := by
+  have h1 : addBackends (permutation .little fnvHashes 7) [] [[98], [97], [99], [97]] = some [[98], [97], [99]] := by decide
+  have h2 : sortNames [[98], [97], [99]] = [[97], [98], [99]] := by
+    have hp : ([[97], [98], [99]] : List (List Nat)).Perm [[98], [97], [99]] := by decide
+    unfold sortNames
+    apply List.Perm.eq_of_pairwise (le := fun x y => bytesLe x y = true)
+    · intro x y _ _ h1 h2; exact bytesLe_antisymm x y h1 h2
+    · exact List.pairwise_mergeSort bytesLe_trans bytesLe_total _
+    · decide
+    · exact (List.mergeSort_perm _ _).trans hp.symm
+  simp only [table, tableWith, h1, h2]
+  decide
+
+/-! ## 3. independent of the order in which backends were learned -/
+
+/-- Two arrival sequences with the same SET of names (any order, any multiplicity)
+give the same result — the same table or the same panic — for every size and all hashes. -/
+theorem order_independent (e : Endian) (hs : Hashes) (m : Nat) {a b : List (List Nat)}
+    (hab : ∀ x, x ∈ a ↔ x ∈ b) : table e hs m a = table e hs m b := by
+  unfold table
+  rw [tableWith_eq, tableWith_eq, sorted_backends_eq _ hab]
+
+example : ∀ x, x ∈ [[1], [2], [1]] ↔ x ∈ ([[2], [1]] : List (List Nat)) := by
+  intro x
+  simp only [List.mem_cons, List.not_mem_nil, or_false]
+  constructor
+  · rintro (h | h | h) <;> simp [h]
+  · rintro (h | h) <;> simp [h]
+
+/-! ## 4. every configurable table size is prime -/
+
+theorem pr_sorted : Gen.pr.Pairwise (· ≤ ·) := sortedB_sound _ (by decide +kernel)
+theorem pr_last : Gen.pr.getLast? = some 65521 := by decide +kernel
+/-- Every entry of the table regenerated from primes.go is prime (finite table:
+6542 entries checked by the kernel, `gcd p 256! = 1 ∧ p < 257²` or trial division). -/
+theorem pr_all_prime : ∀ p ∈ Gen.pr, IsPrime p := by
+  have h : Gen.pr.all (primeCertB 256 (fact 256)) = true := by decide +kernel
+  intro p hp
+  exact primeCertB_sound (List.all_eq_true.1 h p hp)
+
+/-- `NextPrimeUint16 i` for every `i` up to its panic limit (negative too): a
+prime from the table, `≥ i`, and the least table entry `≥ i`. -/
+theorem nextPrime_prime {i : Int} (hi : i ≤ (Gen.primeLimit : Int)) :
+    ∃ p, nextPrimeUint16 Gen.pr Gen.primeLimit i = some p ∧ IsPrime p ∧ i ≤ (p : Int) ∧
+      ∀ q ∈ Gen.pr, i ≤ (q : Int) → p ≤ q := by
+  obtain ⟨p, h1, h2, h3, h4⟩ := nextPrimeUint16_spec pr_sorted pr_last (by decide) hi
+  exact ⟨p, h1, pr_all_prime p h2, h3, h4⟩
+
+/-- `BPFLUTSizeMaglev` for every value the config parser accepts for
+BPFMaglevMaxEndpointsPerService (`int(cfgMin:cfgMax)` regenerated from the struct tag):
+no panic, prime, and at least `MaglevEndpointLUTFactor` slots per endpoint. -/
+theorem sizes_prime {n : Nat} (_h1 : Gen.cfgMin ≤ n) (h2 : n ≤ Gen.cfgMax) :
+    ∃ p, bpfLUTSizeMaglev Gen.pr Gen.primeLimit Gen.lutFactor n = some p ∧ IsPrime p ∧
+      Gen.lutFactor * n ≤ p ∧ 2 ≤ p := by
+  have hb : Gen.cfgMax * Gen.lutFactor ≤ Gen.primeLimit := by decide
+  have hle : n * Gen.lutFactor ≤ Gen.primeLimit := Nat.le_trans (Nat.mul_le_mul_right _ h2) hb
+  obtain ⟨p, hp1, hp2, hp3, _⟩ := nextPrime_prime (i := ((n * Gen.lutFactor : Nat) : Int)) (by omega)
+  refine ⟨p, hp1, hp2, ?_, hp2.1⟩
+  rw [Nat.mul_comm]; omega
+
+example : bpfLUTSizeMaglev Gen.pr Gen.primeLimit Gen.lutFactor 100 = some 503 := by decide +kernel
+example : Gen.cfgMin ≤ 100 ∧ 100 ≤ Gen.cfgMax := by decide
+
+/-- Composition: with any configurable size the table is complete and balanced. -/
+theorem configured_table_full_balanced {n : Nat} (h1 : Gen.cfgMin ≤ n) (h2 : n ≤ Gen.cfgMax)
+    (e : Endian) (hs : Hashes) (arrivals : List (List Nat)) :
+    ∃ m names t, bpfLUTSizeMaglev Gen.pr Gen.primeLimit Gen.lutFactor n = some m ∧
+      backends e hs m arrivals = some names ∧ table e hs m arrivals = some t ∧
+      (names ≠ [] → t.length = m ∧ (∀ x ∈ t, x ∈ names) ∧
+        ∀ a ∈ names, ∀ b ∈ names, t.count a ≤ t.count b + 1) := by
+  obtain ⟨m, hm1, hm2, _, _⟩ := sizes_prime h1 h2
+  obtain ⟨names, t, hb, ht, _, _, _, hfull⟩ := table_full_balanced hm2 e hs arrivals
+  exact ⟨m, names, t, hm1, hb, ht, fun hne => ⟨(hfull hne).1, (hfull hne).2.1, (hfull hne).2.2.2⟩⟩
+
+/-! ## 5. independent of the CPU's byte order -/
+
+/-- With `binary.NativeEndian` the same three backends get different tables on a
+little- and a big-endian CPU (concrete witness, FNV-1 as in newConsistentHash, 7 slots). -/
+theorem native_order_arch_dependent :
+    table (SrcOrder.nativeEndian.on .little) fnvHashes 7 [[97], [98], [99]] ≠
+    table (SrcOrder.nativeEndian.on .big) fnvHashes 7 [[97], [98], [99]] := by
+  have hs : sortNames [[97], [98], [99]] = [[97], [98], [99]] :=
+    List.mergeSort_of_pairwise (by decide)
+  have h1 : addBackends (permutation .little fnvHashes 7) [] [[97], [98], [99]] = some [[97], [98], [99]] := by decide
+  have h2 : addBackends (permutation .big fnvHashes 7) [] [[97], [98], [99]] = some [[97], [98], [99]] := by decide
+  simp only [SrcOrder.on, table, tableWith, h1, h2, hs]
+  decide
+
+/-- The table is the same on every CPU, for all inputs, **iff** the byte order named in
+`hashFromString` is a fixed one (not `NativeEndian`). -/
+theorem arch_independent_iff (src : SrcOrder) :
+    (∀ (cpu1 cpu2 : Endian) (hs : Hashes) (m : Nat) (names : List (List Nat)),
+      table (src.on cpu1) hs m names = table (src.on cpu2) hs m names) ↔ src ≠ .nativeEndian := by
+  constructor
+  · intro h hsrc
+    subst hsrc
+    exact native_order_arch_dependent (h .little .big fnvHashes 7 [[97], [98], [99]])
+  · intro h cpu1 cpu2 hs m names
+    cases src with
+    | littleEndian => rfl
+    | bigEndian => rfl
+    | nativeEndian => exact absurd rfl h
+
+/-- Node independence for the byte order the CURRENT source names (regenerated by the
+translator from hashFromString): identical tables on little- and big-endian CPUs and for
+every arrival order.  Fails to type-check if `binary.NativeEndian` comes back. -/
+theorem arch_independent (cpu1 cpu2 : Endian) (hs : Hashes) (m : Nat) {a b : List (List Nat)}
+    (hab : ∀ x, x ∈ a ↔ x ∈ b) :
+    table (Gen.hashByteOrder.on cpu1) hs m a = table (Gen.hashByteOrder.on cpu2) hs m b := by
+  rw [order_independent _ hs m hab]
+  exact (arch_independent_iff Gen.hashByteOrder).2 (by decide) cpu1 cpu2 hs m b
 
 end CalicoVerif.C33
